@@ -174,8 +174,8 @@ pub fn catch<T>(f: impl FnOnce() -> T) -> Result<T, ()> {
     std::panic::catch_unwind(std::panic::AssertUnwindSafe(f)).map_err(|_| ())
 }
 
-/// Feed all request lines to the Lean driver and collect one answer per line.
-pub fn run_model(camdrv: &str, reqs: &[String]) -> Vec<String> {
+/// Feed request lines to one Lean driver process and collect one answer per line.
+fn run_model_one(camdrv: &str, reqs: &[String]) -> Vec<String> {
     let mut child = Command::new(camdrv)
         .stdin(Stdio::piped())
         .stdout(Stdio::piped())
@@ -193,6 +193,36 @@ pub fn run_model(camdrv: &str, reqs: &[String]) -> Vec<String> {
     answers
 }
 
+/// Feed all request lines to the Lean driver (stateless, one answer per line).  Large batches
+/// are split over several driver processes; the answers come back in request order.
+pub fn run_model(camdrv: &str, reqs: &[String]) -> Vec<String> {
+    run_model_par(camdrv, reqs, false)
+}
+
+/// `parallel = true` is only sound for drivers whose answer to a line does not depend on
+/// earlier lines.
+pub fn run_model_par(camdrv: &str, reqs: &[String], parallel: bool) -> Vec<String> {
+    let workers = if parallel { std::cmp::min(12, reqs.len() / 4000 + 1) } else { 1 };
+    if workers <= 1 {
+        return run_model_one(camdrv, reqs);
+    }
+    let per = reqs.len().div_ceil(workers);
+    std::thread::scope(|sc| {
+        let handles: Vec<_> = reqs
+            .chunks(per)
+            .map(|chunk| sc.spawn(move || run_model_one(camdrv, chunk)))
+            .collect();
+        let mut all = Vec::with_capacity(reqs.len());
+        for (h, chunk) in handles.into_iter().zip(reqs.chunks(per)) {
+            let mut a = h.join().unwrap();
+            // keep alignment even if one worker died early
+            a.resize(chunk.len(), "<missing>".to_string());
+            all.extend(a);
+        }
+        all
+    })
+}
+
 /// What one harness run found; serialised for `/verif/check`.
 pub struct Report {
     pub property: String,
@@ -206,7 +236,10 @@ pub struct Report {
     pub violations: Vec<Value>,
     pub n_violations: u64,
     pub extra: BTreeMap<String, Value>,
-    /// (request line, implementation answer, is-corpus) queued for the model.
+    /// Set when the driver is stateless per line: large batches are then split over several
+    /// driver processes.
+    pub parallel_model: bool,
+    /// (request line, implementation answer) queued for the model.
     pending: Vec<(String, String)>,
 }
 
@@ -224,6 +257,7 @@ impl Report {
             violations: vec![],
             n_violations: 0,
             extra: BTreeMap::new(),
+            parallel_model: false,
             pending: vec![],
         }
     }
@@ -262,7 +296,7 @@ impl Report {
             return;
         }
         let reqs: Vec<String> = pend.iter().map(|p| p.0.clone()).collect();
-        let answers = run_model(camdrv, &reqs);
+        let answers = run_model_par(camdrv, &reqs, self.parallel_model);
         if answers.len() != reqs.len() {
             self.n_disagreements += 1;
             self.disagreements.push(json!({
